@@ -62,7 +62,7 @@ hooks = subprocess.run(["git", "-C", "/repo", "log", "--format=%H %s"], stdout=s
 hook_commits = [l.split()[0] for l in hooks if "verif hooks" in l]
 m = {
     "version": 1,
-    "setup_cmd": "./check --build release dbg asan miri",
+    "setup_cmd": "./check --build release dbg asan miri tsan",
     "hooks": {
         "guard": "--cfg futures_intrusive_verif",
         "enable": "RUSTFLAGS='--cfg futures_intrusive_verif' (set by ./check for every build variant; the harness crate /verif/harness depends on /repo by path)",
